@@ -14,8 +14,8 @@ EXTENDS QueryCache, TraceBase
 
 tvars == <<cap, cache, out, l, sid, used, failed>>
 
-\* the variants named by the trace (domain of the rendering tables)
-TraceVariants == {Rec[i].v : i \in {j \in DOMAIN Rec : Rec[j].ev = "Exec"}}
+\* (the cfg replaces the memo tables of QueryCache by the operators themselves:
+\*  Text <- Render, Mng <- Meaning -- one rendering per event is cheap)
 
 TInit == QCInit /\ TBInit
 T_Reset == ResetBook /\ cap' = 0 /\ cache' = <<>> /\ out' = [asked |-> <<>>, got |-> <<>>, hit |-> FALSE]
@@ -23,6 +23,7 @@ T_Fail == FailBook /\ cap' = 0 /\ cache' = <<>> /\ out' = [asked |-> <<>>, got |
 T_Open == IsEv("Open") /\ Open(Ev.cap) /\ Same
 T_Exec ==
     /\ IsEv("Exec")
+    /\ WellFormed(Ev.v)
     /\ Ev.text = Text(Ev.v)
     /\ Ev.obs.cached = Ev.obs.fresh
     /\ ExecObserved(Ev.v, Ev.obs.hit, Ev.obs.parses)
